@@ -422,3 +422,29 @@ def abi_in_si_raw(script, option):
     e.setup(script)
     name, vals = [c for c in lib.log if c[0].startswith("engineexport_initialize")][0]
     return dict(zip(GRID_NAMES if name.endswith("grid") else GRAPH_NAMES, vals))
+
+
+def explicit_volume_strings(k, where):
+    """a bare number replaced by an explicit unit STRING keeps the physical value, for every symbol of the litre family (and the molar
+    family in densities): a cell / node volume written '1 <symbol>' is that many cubic metres (SI definitions written here, not taken
+    from the module), and equals the same volume written as a bare number of µm3"""
+    from harness.c06lib import derived_spec, AVOGADRO
+    lit, mol = derived_spec()
+    names = sorted(lit) + sorted(mol)
+    if k >= len(names):
+        return True
+    sym = names[k]
+    if sym in lit:
+        want = lit[sym]                                   # m3
+        if where == 0:
+            g = RDGridSpace(w=2, cell_vol="1 %s" % sym)
+            got = si(g.cell_vol)
+            bare = RDGridSpace(w=2, cell_vol=want / 1e-18)    # the same volume as a bare number in the default system (µm3)
+            return close(got, want) and close(si(bare.cell_vol), want) and close(si(g.get_cell_vol_array().get_at(1)), want)
+        g = RDGraphSpace(nodes=[N("1 %s" % sym, 0), N(want / 1e-18, 0)], edges=[E(0, 1)])
+        va = g.get_cell_vol_array()
+        return close(si(va.get_at(0)), want) and close(si(va.get_at(1)), want)
+    want = mol[sym]                                       # molecules per m3
+    sp = Species("A", density="1 %s" % sym)
+    s = RDSystem(RDNetwork(species=[sp], reactions=[]), RDGridSpace(w=1, cell_vol="1 fL"))
+    return close(si(sp.density), want) and close(si(s.state.get_at(0)), want * 1e-18)
